@@ -24,7 +24,7 @@ def run(ctx):
     ps = nonpanic(walk(f))
     okp = [p for p in ps if path_sig(p)[1].startswith("return Option::Some")]
     adv = [e for p in okp for e in event_strs(p) if e.startswith("store self :=")]
-    ctx.check("C01-R2", "<&[u8]>::get_varint advances by parse_size(first)", bool(adv) and all(re.match(r"^store self := <impl Index<I> for \[T\]>::index\(self,RangeFrom\(VarInt::parse_size\(ok\(<impl \[T\]>::first\(self\)\)\)\)\)$", e) for e in adv),
+    ctx.check("C01-R2", "<&[u8]>::get_varint advances by parse_size(first)", bool(adv) and all(re.match(r"^store self := self\[VarInt::parse_size\(ok\(<impl \[T\]>::first\(self\)\)\)\.\.\]$", e) for e in adv),
               "<&[u8] as BytesReader>::get_varint does not advance by exactly the varint length: %s" % adv, where(f))
 
     ctx.rule("C01-R3", "no buffering layer: handles are newtypes over quinn streams; I/O delegates unchanged")
